@@ -10,6 +10,7 @@ import os
 import sys
 import time
 import traceback
+import warnings
 
 from . import env
 
@@ -22,18 +23,23 @@ def load_prop(prop_id: str):
 async def _run(prop, args, acc, ctx):
     from .monitors import reach
 
-    t0 = time.monotonic()
+    t0 = env.REAL_MONOTONIC()
     budget = float(os.environ.get("VERIF_BUDGET_S", prop.budget_s[args.tier]))
     await prop.setup(ctx)
     try:
+        pairs = (lambda: prop.thread_pairs(ctx)) if type(prop).thread_pairs is not type(prop).__mro__[-2].thread_pairs else None
+        if pairs:
+            # before anything else uses the library in this process: two OS threads, every switch point of the first call
+            from .monitors import threadops
+
+            with warnings.catch_warnings():
+                await asyncio.get_running_loop().run_in_executor(None, threadops.run_pairs, acc, pairs, args.shard, args.nshards)
         if args.replay:
             cases = [json.load(open(args.replay))["case"]]
         else:
             cases = prop.cases(args.tier, args.seed, args.shard, args.nshards)
         is_async = inspect.iscoroutinefunction(prop.run_case)
         n = 0
-        import warnings
-
         for case in cases:
             acc.case = case
             # some applications (and most test suites) turn warnings into errors; every fifth case runs that way
@@ -47,11 +53,12 @@ async def _run(prop, args, acc, ctx):
                 else:
                     prop.run_case(case, acc, ctx)
             n += 1
-            if (n & 15) == 0 and time.monotonic() - t0 > budget:
+            if (n & 15) == 0 and env.REAL_MONOTONIC() - t0 > budget:
                 acc.count("truncated_by_budget")
                 break
         acc.case = None
         prop.finish(acc, ctx)
+        acc.count("idle_periods_of_virtual_real_time", env.idle_jumps())
     finally:
         await prop.teardown(ctx)
     return reach.counts()
@@ -68,6 +75,7 @@ def main() -> int:
     ap.add_argument("--replay")
     args = ap.parse_args()
 
+    env.install_virtual_monotonic()
     faulthandler.enable()
     # a hang dumps stacks shortly before the runner's watchdog kills the worker
     faulthandler.dump_traceback_later(
@@ -79,7 +87,7 @@ def main() -> int:
 
     acc = Acc()
     out = {"ok": False}
-    t0 = time.monotonic()
+    t0 = env.REAL_MONOTONIC()
     try:
         env.assert_repo_is_working_tree()
         prop = load_prop(args.prop)
@@ -113,7 +121,7 @@ def main() -> int:
         acc.inconclusive_because(f"worker crashed: {type(exc).__name__}: {exc}")
         out["traceback"] = traceback.format_exc()
     out.update(acc.to_json())
-    out["wall_s"] = time.monotonic() - t0
+    out["wall_s"] = env.REAL_MONOTONIC() - t0
     tmp = args.out + ".tmp"
     with open(tmp, "w") as fh:
         json.dump(out, fh, default=str)
